@@ -16,6 +16,7 @@ def env():
     e['PYTHONPATH'] = os.pathsep.join([os.path.join(REPO, 'src'), VERIF])
     e['PYTHONDONTWRITEBYTECODE'] = '1'
     e['PYTHONHASHSEED'] = '0'
+    e['PYTHONWARNINGS'] = 'ignore'
     return e
 
 
